@@ -39,11 +39,9 @@ Barrier = BarrierType()
 
 
 def _to_naive_utc_time(value: dt.datetime | None) -> dt.datetime | None:
-    return (
-        value.astimezone(dt.timezone.utc).replace(tzinfo=None)
-        if value and value.tzinfo
-        else value
-    )
+    # A naive datetime denotes local time (that is what the file stores report and
+    # what datetime.now() returns); astimezone() reads it that way, honouring fold.
+    return value.astimezone(dt.timezone.utc).replace(tzinfo=None) if value else value
 
 
 def _get_stale_scope(call: Call, registry: Registry) -> tuple:
